@@ -169,7 +169,8 @@ def row_ok(row):
 
 # ---------------------------------------------------------------------------------------------
 
-def helper_predicates(ctx, c, r):
+def helper_bad(c, r):
+    """the helper clauses of the property on one record of outputs; list of complaints"""
     nseq, nsub, F = c['nseq'], c['nsub'], c['F']
     bad = []
     for af, (ps, pr) in enumerate(zip(r['parts'], r['probs'])):
@@ -201,6 +202,11 @@ def helper_predicates(ctx, c, r):
         dev = max(dev, max(r['nocall'][1:]), abs(r['enough'] - 1), abs(r['nocall'][0] - 1))
         if dev > DEEP_TOL:
             bad.append('deep coverage (every depth >= 60): calling-error matrix / no-call / enough-covered differ from identity / 0 / 1 by %.3e' % dev)
+    return bad
+
+def helper_predicates(ctx, c, r):
+    nseq, nsub, F = c['nseq'], c['nsub'], c['F']
+    bad = helper_bad(c, r)
     for w in bad:
         ctx.violation('LowPass helper (nseq=%d nsub=%d F=%r cov=%s): %s' % (nseq, nsub, F, c['covkind'], w[:400]),
                       data={'case': c, 'impl': r})
@@ -213,7 +219,8 @@ def maxdiff(a, b):
         return max([maxdiff(x, y) for x, y in zip(a, b)] + [0.0])
     return abs(a - b)
 
-def lowpass_predicates(ctx, c, r):
+def lowpass_bad(ctx, c, r):
+    """the corrected-model clauses of the property on one record of outputs; list of complaints"""
     bad = []
     scale = max([abs(x) for x in c['model']] + [1.0])
     tot_m, tot_o = r['model_total'], r['out_total']
@@ -230,6 +237,12 @@ def lowpass_predicates(ctx, c, r):
             bad.append('simulated array for allele counts %r is not a normalised non-negative histogram' % (k,)); break
     if not r['sim_shapes_ok']:
         bad.append('simulated arrays have the wrong shape')
+    if c['deep'] and c['thr'] == 0 and all(p['nsub'] == p['nseq'] for p in c['pops']) and c.get('kind') == 'ltypes':
+        # deep coverage, nothing subsampled, everything simulated: every locus is called with its true allele counts (a heterozygote with
+        # >= 60 reads is miscalled with probability 2^-59), so the corrected model IS the model on every unmasked entry
+        dv = max([abs(a - b) for a, b, m in zip(r['out'], c['model'], r['model_mask']) if not m] + [0.0])
+        if dv > DEEP_TOL * scale:
+            bad.append('deep coverage in every individual, nsub == nseq, sim_threshold=0: corrected model differs from the model spectrum by %.4g' % dv)
     if c['deep'] and c['thr'] > 0:      # thr = 0 forces the simulated regime (a finite-sample estimate) at any depth
         dev = maxdiff(r['out'], r['plainF'])
         if dev > DEEP_TOL * scale:
@@ -257,6 +270,10 @@ def lowpass_predicates(ctx, c, r):
             dv = max([abs(a - b) for a, b, m in zip(r['out'], r['plain'], r['plain_mask']) if not m] + [0.0])
             if dv > t * mass:
                 bad.append('deep coverage, sim_threshold=0: corrected model differs from model.project(nsub) by %.4g (tolerance %.4g, false-alarm probability < 1e-12)' % (dv, t * mass))
+    return bad
+
+def lowpass_predicates(ctx, c, r):
+    bad = lowpass_bad(ctx, c, r)
     for w in bad:
         ctx.violation('make_low_pass_func_GATK_multisample (pops=%s thr=%r): %s' % (
             [(p['nseq'], p['nsub'], p['F'], p['covkind']) for p in c['pops']], c['thr'], w[:400]), data={'case': c, 'impl': {k: r[k] for k in ('out', 'model_total', 'out_total', 'use')}})
@@ -612,9 +629,27 @@ def run_simulation_path(ctx, only=None):
                 ctx.violation('%s replayed with the recorded draws disagrees with the model (or the draws violate its hypotheses): %r' % (what, rr),
                               data={'case': c, 'impl': {k: v for k, v in byid[cid].items() if k in ('out', 'problems', 'probs')}},
                               no_input=True, broken='replay of ' + what)
-    if src_problems and not found_input and only is None:
+    return src_problems, found_input
+
+def run_types_stream(ctx, src_problems, found_input):
+    """argument types / containers / layouts (c18_types), every run; a broken source obligation (the shuffle of
+    subsample_genotypes_1D, the layout-independent frame of lowpass_func) starts a targeted search over the same variants
+    at thorough size before no-failing-input-found is reported"""
+    import sys
+    from harness.props import c18_types
+    me = sys.modules[__name__]
+    frame_problems = c18_types.frame_obligation(ctx, lib.REPO)
+    found = c18_types.run_stream(ctx, me)
+    if (src_problems or frame_problems) and not found_input and not found:
+        ctx.count('types: targeted search after a broken source obligation')
+        found = c18_types.run_stream(ctx, me, big=True, tag='types_search')
+    if src_problems and not found_input and not found:
         ctx.violation('source-text obligations of subsample_genotypes_1D fail: ' + '; '.join(src_problems), data={'problems': src_problems},
                       no_input=True, broken='source text of subsample_genotypes_1D')
+    if frame_problems and not found_input and not found:
+        ctx.violation('lowpass_func / its precalculation write through a flattened, reshaped or re-typed alias of an array, which reaches the array '
+                      'only for some memory layouts of the model spectrum: ' + '; '.join(frame_problems), data={'problems': frame_problems},
+                      no_input=True, broken='layout-independent frame of lowpass_func')
 
 
 HNAMES = {0: 'partitions_and_probabilities', 1: 'projection_matrix', 2: 'calling_error_matrix',
@@ -628,7 +663,11 @@ def run(ctx):
                 'nsub < nseq (nsim 5000); simulation path: replayed simulate_GATK_multisample_calling calls (1-2 populations, nseq 4..8 [thorough 4..12], '
                 'mostly nsub < nseq, shallow and deep coverage, F = 0 and F > 0, nsim 60..300), subsample_genotypes_1D on constructed call matrices '
                 '(2-3 classes of identical rows, enough loci per class for a 1e-30 false-alarm bound), deep-coverage distribution cases (nsim 20000, '
-                'every allele count of 1 population / 14 allele-count pairs of 2 populations, F = 0 and F > 0)')
+                'every allele count of 1 population / 14 allele-count pairs of 2 populations, F = 0 and F > 0); stream types (harness/props/c18_types.py), '
+                'every run: 7 corrected-model base cases (1-3 populations x sim_threshold 0 / 1e-2 / 1 x low / deep coverage x F) and 4 helper base cases, each '
+                'handed to every entry point once canonically and once per enumerated (argument, spelling): model spectrum layouts / dtypes / masks / the same '
+                'object re-used, sizes / Fx / sim_threshold / nsim as python and numpy scalars, 0-d arrays, lists / tuples / ndarrays of each dtype and stride, '
+                'coverage distributions as arrays of each dtype / order / stride, lists, masked arrays, compute_cov_dist output, shared object')
     ctx.assumptions += ['row 0 of a coverage-distribution array is arange(D+1) (what compute_cov_dist builds); the model indexes depths by position',
                         'float64 results are compared with the exact rationals at 1e-11 absolute (probabilities, F = 0), 1e-9 absolute (F > 0: gammaln differences at arguments ~ 1/F) and 1e-9 of the largest entry (corrected spectra)',
                         'simulated regime: in the corrected-model correspondence the arrays returned by simulate_GATK_multisample_calling in the run are the values of the '
@@ -661,8 +700,14 @@ def run(ctx):
             if c['kind'] in ('simrep', 'subs', 'simdist'):
                 run_simulation_path(ctx, only=c)
                 return
+            if c['kind'] in ('ltypes', 'htypes'):
+                import sys
+                from harness.props import c18_types
+                c18_types.run_stream(ctx, sys.modules[__name__], only=c)
+                return
     if not ctx.replay or not ((json.load(open(ctx.replay)).get('input') or {}).get('case')):
-        run_simulation_path(ctx)
+        sp, fi = run_simulation_path(ctx)
+        run_types_stream(ctx, sp, fi)
     for i, c in enumerate(hc + lc):
         c['id'] = i
     res = lib.run_impl('c18_impl.py', hc + lc, timeout=3000)
